@@ -281,7 +281,7 @@ def gen_world(rng, modname, mixed):
             ds["dispatch"] = ["optd", rng.choice(DKEYS), rng.choice(["x", "y", 1])]
         elif r < 0.55 and firsts:
             ds["dispatch"] = ["ds", rng.choice(firsts)]
-        if ds.get("dispatch") and rng.random() < 0.15 and kind != "first":
+        if ds.get("dispatch") and rng.random() < 0.25 and kind != "first":
             ds["abstract"] = True
         if rng.random() < 0.30:
             ds["options"] = _rand_opts(rng, KEYS + DKEYS)
@@ -937,6 +937,16 @@ def child_main(jobfile):
     with open(jobfile) as fh:
         job = json.load(fh)
     res = []
+    hung = [0]
+
+    def reg(f):
+        if hung[0] >= 2:
+            return ["skipped", None]
+        out = with_timeout(f, REGISTER_TIMEOUT)
+        if out[0] == "timeout":
+            hung[0] += 1
+        return out
+
     for it in job["items"]:
         r = {"id": it["id"]}
         try:
@@ -947,7 +957,7 @@ def child_main(jobfile):
             if it.get("bundle"):
                 r["gs"] = generic_state(h)
                 base, der = h
-                out = with_timeout(lambda: base.register(it["new_alias"], mod.extra), REGISTER_TIMEOUT)
+                out = reg(lambda: base.register(it["new_alias"], mod.extra))
                 r["register"] = out[0] if out[0] != "fail" else "fail:" + out[1]
                 r["obs_reg"] = strip_log(observe(der, it["reg_dicts"], mod.LOG)) if out[0] == "ok" else None
             else:
@@ -957,7 +967,7 @@ def child_main(jobfile):
                 except Unmodelled as e:
                     r["ms"] = ["unmodelled", str(e)]
                 r["obs"] = observe(h, it["dicts"], mod.LOG)
-                out = with_timeout(lambda: h.register(it["new_alias"], mod.extra), REGISTER_TIMEOUT)
+                out = reg(lambda: h.register(it["new_alias"], mod.extra))
                 r["register"] = out[0] if out[0] != "fail" else "fail:" + out[1]
                 r["obs_reg"] = strip_log(observe(h, it["reg_dicts"], mod.LOG)) if out[0] == "ok" else None
         except Exception as e:  # noqa: BLE001
@@ -1009,7 +1019,10 @@ class ModuleRun:
         if self.ctx.scratch.dir not in sys.path:
             sys.path.insert(0, self.ctx.scratch.dir)
         importlib.invalidate_caches()
-        self.mod = importlib.import_module(self.spec["module"])
+        out = with_timeout(lambda: importlib.import_module(self.spec["module"]), 60)
+        if out[0] != "ok":
+            raise RuntimeError(f"importing the generated module {self.spec['module']} failed: {out}")
+        self.mod = out[1]
         self.R = Render()
         self.ftable = self.R.g_ftable(fn_kinds(self.spec))
 
@@ -1054,17 +1067,22 @@ class ModuleRun:
             self.count_obs(rec["obsB"])
             if rec["msA"] is None:
                 self.stats["unmodelled"] += 1
+            if rec["msB"] is not None and rec["msB"][0] == "dataset" and rec["msB"][3][0] == "mem":
+                self.stats["cache_entries_in_warm_pickles"] = (self.stats.get("cache_entries_in_warm_pickles", 0)
+                                                               + json.dumps(rec["msB"]).count('"mem"'))
+                self.stats["top_level_cache_entries_pickled"] = (self.stats.get("top_level_cache_entries_pickled", 0)
+                                                                 + len(rec["msB"][3][1]))
             info = rec["infoA"]
             d18_zone = info is not None and not all(info["funcs"].values())
             rec["d18_zone"] = d18_zone
-            fails = {p: b for p, b in rec["bytesA"].items() if isinstance(b, Exception)}
-            fails.update({("B", p): b for p, b in rec["bytesB"].items() if isinstance(b, Exception)})
+            fails = {f"{p} (cold)": b for p, b in rec["bytesA"].items() if isinstance(b, Exception)}
+            fails.update({f"{p} (warm)": b for p, b in rec["bytesB"].items() if isinstance(b, Exception)})
             rec["picklable"] = not fails
             if fails:
                 classes = sorted({type(e).__name__ for e in fails.values()})
                 is_d18 = d18_zone and classes == ["PicklingError"]
                 self.v("pickle.dumps fails on a dataset graph", name, finding="D18" if is_d18 else None,
-                       protocols=sorted(str(p) for p in fails), error_classes=classes,
+                       protocols=sorted(fails), error_classes=classes,
                        form="reaches a decorator-form function" if d18_zone else "all functions importable",
                        unimportable=sorted(k for k, ok in (info or {"funcs": {}})["funcs"].items() if not ok))
                 if is_d18:
@@ -1430,7 +1448,9 @@ class ModuleRun:
             if r["gs"] != json.loads(json.dumps(rec["gs"])):
                 self.v("structural state (incl. sharing) differs after the round trip", name, protocol=p, mode=mode,
                        diff=first_diff(json.loads(json.dumps(rec["gs"])), r["gs"]))
-            if r["register"] != "ok":
+            if r["register"] == "skipped":
+                pass
+            elif r["register"] != "ok":
                 self.v("unpickled dataset rejects a further registration" if r["register"] != "timeout" else
                        "register on the unpickled dataset does not return: deadlock", name, protocol=p, mode=mode,
                        error=r["register"])
@@ -1460,7 +1480,9 @@ class ModuleRun:
                        state=tag, options=o, fields=fields, original={k: a[k] for k in fields},
                        unpickled={k: b.get(k) for k in fields})
                 break
-        if r["register"] == "timeout":
+        if r["register"] == "skipped":
+            pass
+        elif r["register"] == "timeout":
             self.v("register on the unpickled dataset does not return (lock never released): deadlock", name,
                    protocol=p, mode=mode, alias=rec["alias"])
         elif r["register"] != "ok":
@@ -1594,28 +1616,56 @@ def run_specs(ctx, specs_dicts, hashseeds, only=None, quick=True):
     return runs, child_stats
 
 
+def py_digest(s):
+    h = 7
+    for b in s.encode("ascii"):
+        h = (h * 1000003 + b) % 2305843009213693951
+    return str(h)
+
+
 def model_compare(ctx, runs, name="Cases_C20"):
+    """One vm_compute run over all cases.  Long outputs (whole states) travel as a rolling hash
+    computed inside Coq; a disagreeing case is re-evaluated alone to report the model's text."""
     cases = [c for mr in runs for c in mr.model_cases]
     mism = []
     if not cases:
         return 0, mism
-    lines = ctx.coq_eval(name, ["Model.Base", "Model.Pickle", "Model.PickleRun"], "Open Scope N_scope.",
-                         [c[0] for c in cases], shard=150)
+    req = ["Model.Base", "Model.Pickle", "Model.PickleRun"]
+    exprs = [f"digest ({c[0]})" if c[0].startswith("show_roundtrip") else c[0] for c in cases]
+    lines = ctx.coq_eval(name, req, "Open Scope N_scope.", exprs, shard=150)
+    bad = []
     for (expr, impl, payload), ml in zip(cases, lines):
-        if ml != impl:
-            mism.append(dict(where="Model/Pickle.v vs labrea (" + payload.get("what", "") + ")", scenario=payload,
-                             impl=impl[:600], model=ml[:600]))
+        want = py_digest(impl) if expr.startswith("show_roundtrip") else impl
+        if ml != want:
+            bad.append((expr, impl, payload, ml))
+    for i, (expr, impl, payload, ml) in enumerate(bad[:5]):
+        if expr.startswith("show_roundtrip"):
+            try:
+                ml = ctx.coq_eval(f"{name}_full{i}", req, "Open Scope N_scope.", [expr])[0]
+            except Exception as e:  # noqa: BLE001
+                ml = f"(digest {ml}; full text unavailable: {e!r})"[:300]
+        mism.append(dict(where="Model/Pickle.v vs labrea (" + payload.get("what", "") + ")", scenario=payload,
+                         impl=_around(impl, ml), model=_around(ml, impl), total_mismatches=len(bad)))
     return len(cases), mism
+
+
+def _around(a, b, width=260):
+    """the part of a where it first differs from b"""
+    i = 0
+    while i < min(len(a), len(b)) and a[i] == b[i]:
+        i += 1
+    lo = max(0, i - 80)
+    return ("…" if lo else "") + a[lo:lo + width] + ("…" if lo + width < len(a) else "")
 
 
 def run(ctx):
     rng = ctx.rng
     quick = ctx.quick
-    n_mod = 6 if quick else 40
+    n_mod = 8 if quick else 40
     tagid = f"{ctx.seed}_{os.getpid()}"
     specs = []
     for k in range(n_mod):
-        mixed = (k % 3 == 2)
+        mixed = (k % 2 == 1)
         spec = gen_world(rng, f"c20m_{tagid}_{k}", mixed)
         specs.append((spec, gen_dicts(rng, spec, quick)))
     hashseeds = [0, rng.randint(1, 4_000_000)] if quick else [0] + [rng.randint(1, 4_000_000) for _ in range(3)]
